@@ -7,6 +7,7 @@ S4  the Q instance of the generated model is RUN in Coq (vm_compute) on the harn
 S5  the property's own clauses evaluated in Python on the Rust outputs
 """
 from vlib.common import *
+from vlib import auxprops
 
 ULP = Fraction(1, 2**52)
 TOL_MODEL = Fraction(1, 10**15)          # 4.5 ulp of the axis scale: correspondence tolerance (DESIGN: "within 4 ulp")
@@ -737,11 +738,13 @@ def run(ctx):
     want = replay_setup(ctx)
     quick = ctx.tier == "quick"
     binp = build_harness(ctx)
-    msgs, spans = regen(ctx, ["grid", "ranges", "gridres"])
+    msgs, spans = regen(ctx, ["grid", "ranges"])
     ctx.cov["translated_spans"] = {k: v for k, v in spans.items() if k.startswith("grid.") or k.startswith("ranges.")}
     for m in msgs:
-        ctx.proof_failures.append(("Gen/Ranges.v" if "generator ranges" in m else "Gen/GridRes.v" if "generator gridres" in m else "Gen/Grid.v", "translator", m))
+        ctx.proof_failures.append(("Gen/Ranges.v" if "generator ranges" in m else "Gen/Grid.v", "translator", m))
     proved = (not msgs) and prove(ctx, "C14", extra_targets=["Model/GridCheck.vo", "Proofs/C14_casetac.vo", "Props/C14_pins.vo"])
+    # auxiliary composition (Props/C14_aux.v): set_resolution / with_resolution, constructors and ranges (generated, Gen/GridRes.v)
+    auxprops.prove_aux(ctx, "C14", ["gridres"])
     # F6 is fixed (fd4cfc7); its historical record is built separately and a failure there is only a note
     okf, _, _ = coq_build(ctx, ["Findings/C14_transpose.vo"]) if not msgs else (True, [], "")
     if not okf:
